@@ -10,6 +10,9 @@ import (
 	"bytes"
 	"context"
 	"fmt"
+	"os"
+	"os/exec"
+	"path/filepath"
 	"strings"
 
 	"fortio.org/log"
@@ -54,7 +57,9 @@ func genTemplateN(c *Ctx, np int) tmpl {
 		return "unquote(" + ps[c.R.Intn(len(ps))] + ")"
 	}
 	forms := []func() string{
-		func() string { return u() + " " + []string{"+", "-", "*", "/", "&&", "||", "==", "<", ":", "%"}[c.R.Intn(10)] + " " + u() },
+		func() string {
+			return u() + " " + []string{"+", "-", "*", "/", "&&", "||", "==", "<", ":", "%"}[c.R.Intn(10)] + " " + u()
+		},
 		func() string { return "if " + u() + " {" + u() + "} else {" + u() + "}" },
 		func() string { return "g(" + u() + ", 7)" },
 		func() string { return "[" + u() + ", " + u() + "]" },
@@ -346,6 +351,36 @@ func one(c *Ctx, s sess) {
 	c.NonTrivial(strings.Join(s.withMacros, "|"))
 }
 
+// oneEvalOnly: sessions whose macro text lives inside strings (eval(lib)): only behaviour is compared, there is no tree of the
+// input to compare.
+func oneEvalOnly(c *Ctx, s sess) {
+	c.Eval()
+	for _, l := range [][]string{s.withMacros, s.handSubst} {
+		for _, in := range l {
+			if _, ok := parseProg(in); !ok {
+				c.Count("unparseable-generated-input")
+				return
+			}
+			// the text inside the string, too
+			if i, j := strings.Index(in, "`"), strings.LastIndex(in, "`"); i >= 0 && j > i {
+				if _, ok := parseProg(in[i+1 : j]); !ok {
+					c.Count("unparseable-generated-input")
+					return
+				}
+			}
+		}
+	}
+	key := "MACROEV " + Hx([]byte(strings.Join(s.withMacros, "\x00"))) + " " + Hx([]byte(strings.Join(s.handSubst, "\x00")))
+	for _, entry := range []string{"repl", "evalstring"} {
+		o1, e1 := evalSession(s.withMacros, entry)
+		o2, e2 := evalSession(s.handSubst, entry)
+		if o1 != o2 || strings.Join(e1, ",") != strings.Join(e2, ",") {
+			c.Fail("reentered-text-evaluates-differently:"+entry, key, fmt.Sprintf("inputs %q: out %q vs hand-substituted %q, errs %v vs %v", s.withMacros, o1, o2, e1, e2))
+		}
+		c.Count("entry=" + entry + ":eval-twice")
+	}
+}
+
 func run(c *Ctx) {
 	c.Rule = "sessions of 1-4 inputs defining 1-2 quoted-template macros (0-4 parameters named a..d, upper case, like the session's macros / globals, or like built-in functions; a macro may be redefined between inputs and the same call text re-used; each session evaluated through repl.EvalOne and through eval.EvalString; each parameter used 0-3 times, 15 template forms incl. unquote in callee position) and using them at top level, " +
 		"in functions, loops, if branches, as argument of another macro call and in callee position, with arguments from a pool incl. side effects and operators looser than the context. non-trivial = distinct sessions"
@@ -353,6 +388,13 @@ func run(c *Ctx) {
 	log.SetLogLevelQuiet(log.Critical)
 	if c.ReplayCase != "" {
 		f := strings.Fields(c.ReplayCase)
+		if len(f) == 4 && f[0] == "MULTIFILE" {
+			replayMF = []string{string(Unhx(f[1])), string(Unhx(f[2])), f[3]}
+			multiFile(c)
+		}
+		if len(f) == 3 && f[0] == "MACROEV" {
+			oneEvalOnly(c, sess{withMacros: strings.Split(string(Unhx(f[1])), "\x00"), handSubst: strings.Split(string(Unhx(f[2])), "\x00")})
+		}
 		if len(f) == 2 && f[0] == "MACRO" {
 			ins := strings.Split(string(Unhx(f[1])), "\x00")
 			one(c, sess{withMacros: ins, handSubst: ins})
@@ -374,5 +416,110 @@ func run(c *Ctx) {
 	}
 	for i := 0; i < n; i++ {
 		one(c, genSession(c))
+		if i%10 == 0 {
+			oneEvalOnly(c, genEvalTwice(c))
+		}
+	}
+	multiFile(c)
+}
+
+// genEvalTwice: the definition AND a use are the text of a string that the session evaluates twice through eval(), the
+// macro being redefined at top level in between: the second eval(lib) must define and expand the text's own template again
+// (a parse tree remembered per text would have lost its definitions: DefineMacros removes them from the tree in place).
+func genEvalTwice(c *Ctx) sess {
+	t1 := genTemplate(c)
+	t2 := genTemplateN(c, len(t1.params))
+	args := func(t tmpl) []string {
+		var a []string
+		for range t.params {
+			a = append(a, argPool[c.R.Intn(len(argPool))])
+		}
+		return a
+	}
+	a1, a2 := args(t1), args(t2)
+	prelude := "a=true;b=false;c=true;x=3;y=0;z=[5,6];q={\"r\":1};f=n=>n+1;g=(p,r)=>p\n"
+	def := func(t tmpl) string {
+		return "m = macro(" + strings.Join(t.params, ", ") + ") {quote(" + t.text + ")}\n"
+	}
+	callm := func(a []string) string { return "m(" + strings.Join(a, ", ") + ")\n" }
+	if strings.Contains(t1.text, "`") || strings.Contains(strings.Join(a1, ""), "`") {
+		return sess{[]string{"1\n"}, []string{"1\n"}}
+	}
+	return sess{
+		withMacros: []string{prelude + "lib = `" + def(t1) + callm(a1) + "`\neval(lib)\n", def(t2) + callm(a2), "eval(lib)\n", callm(a2)},
+		handSubst:  []string{prelude + "lib = `" + substitute(t1, a1) + "`\neval(lib)\n", substitute(t2, a2) + "\n", "eval(lib)\n", substitute(t1, a2) + "\n"},
 	}
 }
+
+// multiFile: the interpreter binary given several script files (main.go creates one session per file unless -shared-state):
+// a macro defined by one file must not rewrite the calls of the next file.  Together = each alone, in order.
+func multiFile(c *Ctx) {
+	bin, err := BuildGrol(c, "grol-c13")
+	if err != nil {
+		c.Fail("multifile:build", "MULTIFILE", err.Error())
+		return
+	}
+	defer os.Remove(bin)
+	dir, err := os.MkdirTemp(c.Out, "c13mf")
+	if err != nil {
+		c.Fail("multifile:tempdir", "MULTIFILE", err.Error())
+		return
+	}
+	defer os.RemoveAll(dir)
+	runFiles := func(files ...string) (string, bool) {
+		cmd := exec.Command(bin, append([]string{"-quiet", "-no-auto", "-no-progress"}, files...)...)
+		cmd.Dir = dir
+		out, err := cmd.Output() // stdout only: the logger's lines carry time stamps
+		return string(out), err == nil
+	}
+	n := 12
+	if c.Thorough() {
+		n = 150
+	}
+	for i := 0; i < n; i++ {
+		c.Eval()
+		t := genTemplateN(c, 1+c.R.Intn(2))
+		name := []string{"m", "twice", "wrap"}[c.R.Intn(3)]
+		var args []string
+		for range t.params {
+			args = append(args, argPool[c.R.Intn(len(argPool))])
+		}
+		prelude := "a=true;b=false;c=true;x=3;y=0;z=[5,6];q={\"r\":1};f=n=>n+1;g=(p,r)=>p\n"
+		fa := prelude + name + " = macro(" + strings.Join(t.params, ", ") + ") {quote(" + t.text + ")}\nprintln(\"a:\", " + name + "(" + strings.Join(args, ", ") + "))\n"
+		ps := []string{"p1", "p2"}[:len(t.params)]
+		bumps := strings.TrimSuffix(strings.Repeat("bump(), ", len(ps)), ", ")
+		fb := "n=0; func bump(){n=n+1;n}\n" + name + " = func(" + strings.Join(ps, ", ") + "){p1*10}\nprintln(\"b:\", " + name + "(" + bumps + "), \"bump calls:\", n)\n"
+		fc := "println(\"c:\", 1)\n"
+		orders := [][]string{{"a.gr", "b.gr"}, {"a.gr", "c.gr", "b.gr"}, {"b.gr", "a.gr", "b.gr"}}
+		if replayMF != nil {
+			fa, fb, orders = replayMF[0], replayMF[1], [][]string{strings.Split(replayMF[2], ",")}
+		}
+		_ = os.WriteFile(filepath.Join(dir, "a.gr"), []byte(fa), 0o644)
+		_ = os.WriteFile(filepath.Join(dir, "b.gr"), []byte(fb), 0o644)
+		_ = os.WriteFile(filepath.Join(dir, "c.gr"), []byte(fc), 0o644)
+		for _, order := range orders {
+			var alone string
+			allOk := true
+			for _, f := range order {
+				o, ok := runFiles(f)
+				alone += o
+				allOk = allOk && ok
+			}
+			if !allOk { // a file that fails alone stops the run: nothing to compare
+				c.Count("multifile-skipped:a-file-fails-alone")
+				continue
+			}
+			together, okT := runFiles(order...)
+			if together != alone || !okT {
+				c.Fail("multifile:macro-leaks-between-files", "MULTIFILE "+Hx([]byte(fa))+" "+Hx([]byte(fb))+" "+strings.Join(order, ","),
+					fmt.Sprintf("files %v together print %q, each alone %q", order, together, alone))
+			}
+		}
+		c.Count("multifile-sets")
+		if replayMF != nil {
+			return
+		}
+	}
+}
+
+var replayMF []string // replay of one MULTIFILE case: text of a.gr, text of b.gr, order
